@@ -180,5 +180,167 @@ Section IndEqProofs.
       unfold IndividualEq.child_repeated. rewrite existsb_exists.
       split; intros (o & Ho & E); exists o; (split; [assumption|]); apply eqb_ind_true; assumption.
     Qed.
+
+    (* equality, hashing and the container primitives depend on the two vectors and on object
+       identity only *)
+    Lemma item_eq_vectors_only (x y x' y' : indiv) :
+      ivec x = ivec x' -> ivec y = ivec y' -> Nat.eqb (fst x) (fst y) = Nat.eqb (fst x') (fst y') ->
+      item_eq x y = item_eq x' y' /\ ihash h x = ihash h x' /\
+      child_repeated ltb absdiff tol x [y] = child_repeated ltb absdiff tol x' [y'].
+    Proof.
+      intros Hx Hy Hi. unfold IndividualEq.item_eq, IndividualEq.child_repeated, ihash. cbn.
+      rewrite Hx, Hy, Hi. auto.
+    Qed.
+
+    (* ---------------- GeneticAlgorithm.generate ---------------- *)
+    Local Notation child_repeated := (child_repeated ltb absdiff tol).
+    Local Notation gen_step := (gen_step ltb absdiff tol).
+    Local Notation generate := (generate ltb absdiff tol).
+
+    Lemma child_repeated_incl c l l' : incl l l' -> child_repeated c l = true -> child_repeated c l' = true.
+    Proof.
+      unfold IndividualEq.child_repeated. rewrite !existsb_exists. intros I (o & Ho & E). exists o. auto.
+    Qed.
+
+    (* no accepted offspring is a repeat (child == earlier offspring) of an earlier accepted one *)
+    Definition GenNoRep (offs : list indiv) : Prop :=
+      forall l1 e l2, offs = l1 ++ e :: l2 -> child_repeated e l1 = false.
+
+    Lemma GenNoRep_nil : GenNoRep [].
+    Proof. intros [|? ?] ? ? E; discriminate. Qed.
+
+    Lemma GenNoRep_snoc l c : GenNoRep l -> child_repeated c l = false -> GenNoRep (l ++ [c]).
+    Proof.
+      intros Hn Hc l1 e l2 Heq.
+      destruct l2 as [|z l2 _] using rev_ind.
+      - apply app_inj_tail in Heq as [-> ->]. exact Hc.
+      - rewrite app_comm_cons, app_assoc in Heq. apply app_inj_tail in Heq as [Heq _].
+        eapply Hn; eauto.
+    Qed.
+
+    Lemma gen_step_incl N offs c1 c2 : incl offs (gen_step N offs c1 c2).
+    Proof.
+      unfold IndividualEq.gen_step.
+      set (offs1 := match offs with [] => [c1] | _ => offs end).
+      assert (I1 : incl offs offs1) by (destruct offs; [intros ? [] | apply incl_refl]).
+      set (offs2 := if child_repeated c1 offs1 && (length offs1 <? N) then offs1 else offs1 ++ [c1]).
+      assert (I2 : incl offs1 offs2)
+        by (subst offs2; destruct (child_repeated c1 offs1 && (length offs1 <? N));
+            [apply incl_refl | apply incl_appl, incl_refl]).
+      assert (I3 : incl offs offs2) by (intros z Hz; auto).
+      destruct (child_repeated c2 offs2 && (length offs2 <? N)); [exact I3|].
+      destruct (length offs2 <? N); [|exact I3].
+      intros z Hz. apply in_or_app. left. auto.
+    Qed.
+
+    (* one pass of the loop body, entered with room left (len < N), for N >= 2:
+       nothing repeated is accepted; child1 is kept or is a repeat of a kept design; child2 is kept,
+       or is a repeat of a kept design, or the list was already full *)
+    Lemma gen_step_spec N offs c1 c2 : 2 <= N -> length offs < N -> GenNoRep offs ->
+      let r := gen_step N offs c1 c2 in
+      GenNoRep r /\ length r <= N /\
+      (In c1 r \/ child_repeated c1 r = true) /\
+      (In c2 r \/ child_repeated c2 r = true \/ length r = N).
+    Proof.
+      intros HN HL Hn. unfold IndividualEq.gen_step.
+      set (offs1 := match offs with [] => [c1] | _ => offs end).
+      assert (H1 : GenNoRep offs1 /\ length offs1 < N).
+      { subst offs1. destruct offs as [|o offs']; [|auto]. split; [|cbn; lia].
+        apply (GenNoRep_snoc [] c1 GenNoRep_nil). reflexivity. }
+      destruct H1 as [Hn1 HL1].
+      set (offs2 := if child_repeated c1 offs1 && (length offs1 <? N) then offs1 else offs1 ++ [c1]).
+      assert (H2 : GenNoRep offs2 /\ length offs2 <= N /\ (In c1 offs2 \/ child_repeated c1 offs2 = true)).
+      { subst offs2. apply Nat.ltb_lt in HL1 as E. rewrite E, andb_true_r.
+        destruct (child_repeated c1 offs1) eqn:R.
+        - repeat split; auto; lia.
+        - repeat split; [apply GenNoRep_snoc; assumption | rewrite app_length; cbn; lia |].
+          left. apply in_or_app. right. left. reflexivity. }
+      destruct H2 as (Hn2 & HL2 & Hc1).
+      destruct (length offs2 <? N) eqn:E2.
+      - rewrite andb_true_r. destruct (child_repeated c2 offs2) eqn:R2.
+        + repeat split; auto.
+        + apply Nat.ltb_lt in E2. repeat split.
+          * apply GenNoRep_snoc; assumption.
+          * rewrite app_length; cbn; lia.
+          * destruct Hc1 as [Hc1|Hc1]; [left; apply in_or_app; auto|].
+            right. eapply child_repeated_incl; [|exact Hc1]. apply incl_appl, incl_refl.
+          * left. apply in_or_app. right. left. reflexivity.
+      - rewrite andb_false_r. apply Nat.ltb_ge in E2. repeat split; auto. right. right. lia.
+    Qed.
+
+    Lemma generate_left N : forall pairs offs, snd (generate N pairs offs) <= length pairs.
+    Proof.
+      induction pairs as [|[c1 c2] ps IH]; intros offs; cbn; destruct (N <=? length offs); cbn; auto;
+        try (specialize (IH (gen_step N offs c1 c2)); lia).
+    Qed.
+
+    Lemma generate_incl N : forall pairs offs, incl offs (fst (generate N pairs offs)).
+    Proof.
+      induction pairs as [|[c1 c2] ps IH]; intros offs; cbn; destruct (N <=? length offs); cbn;
+        try apply incl_refl.
+      eapply incl_tran; [apply gen_step_incl | apply IH].
+    Qed.
+
+    Lemma generate_full N pairs offs : N <= length offs -> generate N pairs offs = (offs, length pairs).
+    Proof.
+      intros H. apply Nat.leb_le in H. destruct pairs as [|[? ?] ?]; cbn [IndividualEq.generate];
+        rewrite H; reflexivity.
+    Qed.
+
+    (* the whole loop, N >= 2: no accepted offspring repeats an earlier accepted one, at most N are
+       returned, and a child of a consumed pair that is not returned is a repeat (child == o) of a
+       returned design - except the second child of the last consumed pair when the list is full *)
+    Lemma generate_spec N : 2 <= N -> forall pairs offs r left,
+      generate N pairs offs = (r, left) -> GenNoRep offs -> length offs <= N ->
+      GenNoRep r /\ length r <= N /\
+      forall k c1 c2, nth_error pairs k = Some (c1, c2) -> k < length pairs - left ->
+        (In c1 r \/ child_repeated c1 r = true) /\
+        (In c2 r \/ child_repeated c2 r = true \/ (S k = length pairs - left /\ length r = N)).
+    Proof.
+      intros HN. induction pairs as [|[d1 d2] ps IH]; intros offs r left G Hn HL.
+      - cbn in G. destruct (N <=? length offs); injection G as <- <-; (split; [|split]); auto;
+          intros k c1 c2 Hk; destruct k; discriminate.
+      - cbn [IndividualEq.generate] in G. destruct (N <=? length offs) eqn:E.
+        + injection G as <- <-. (split; [|split]); auto. intros k c1 c2 _ Hlt. cbn [length] in Hlt. lia.
+        + apply Nat.leb_gt in E.
+          destruct (gen_step_spec N offs d1 d2 HN E Hn) as (Sn & SL & S1 & S2).
+          destruct (IH _ _ _ G Sn SL) as (Rn & RL & Rk).
+          assert (Hleft : left <= length ps)
+            by (pose proof (generate_left N ps (gen_step N offs d1 d2)) as Q; rewrite G in Q; exact Q).
+          assert (Hincl : incl (gen_step N offs d1 d2) r)
+            by (pose proof (generate_incl N ps (gen_step N offs d1 d2)) as Q; rewrite G in Q; exact Q).
+          (split; [|split]); auto. intros k c1 c2 Hk Hlt. destruct k as [|k]; cbn in Hk.
+          * injection Hk as <- <-. split.
+            -- destruct S1 as [S1|S1]; [left; auto | right; eapply child_repeated_incl; eauto].
+            -- destruct S2 as [S2|[S2|S2]]; [left; auto | right; left; eapply child_repeated_incl; eauto |].
+               right; right. rewrite generate_full in G by lia. injection G as <- <-.
+               cbn [length]. split; [lia | exact S2].
+          * cbn [length] in Hlt |- *. destruct (Rk k c1 c2 Hk ltac:(lia)) as (A & B). split; [exact A|].
+            destruct B as [B|[B|[B1 B2]]]; auto. right; right; split; [lia | assumption].
+    Qed.
+
+    (* the same with the repeat spelled out: a discarded child is within the tolerance, in every
+       coordinate, of a design that was kept *)
+    Lemma generate_discards_only_repeats N pairs r left : 2 <= N -> generate N pairs [] = (r, left) ->
+      forall k c1 c2, nth_error pairs k = Some (c1, c2) -> k < length pairs - left ->
+        (In c1 r \/ exists o, In o r /\ ind_eq (ivec c1) (ivec o) = Some true) /\
+        (In c2 r \/ (exists o, In o r /\ ind_eq (ivec c2) (ivec o) = Some true) \/
+         (S k = length pairs - left /\ length r = N)).
+    Proof.
+      intros HN G k c1 c2 Hk Hlt.
+      destruct (generate_spec N HN pairs [] r left G GenNoRep_nil ltac:(cbn; lia)) as (_ & _ & Rk).
+      destruct (Rk k c1 c2 Hk Hlt) as (A & B). rewrite !child_repeated_spec in *. tauto.
+    Qed.
+
+    Lemma generate_accepts_no_repeat N pairs r left : 2 <= N -> generate N pairs [] = (r, left) ->
+      length r <= N /\
+      forall l1 e l2, r = l1 ++ e :: l2 -> forall o, In o l1 -> ind_eq (ivec e) (ivec o) <> Some true.
+    Proof.
+      intros HN G.
+      destruct (generate_spec N HN pairs [] r left G GenNoRep_nil ltac:(cbn; lia)) as (Rn & RL & _).
+      split; [exact RL|]. intros l1 e l2 Heq o Ho C.
+      specialize (Rn l1 e l2 Heq). rewrite <- not_true_iff_false in Rn. apply Rn.
+      apply child_repeated_spec. exists o. auto.
+    Qed.
   End Containers.
 End IndEqProofs.
